@@ -2,7 +2,7 @@
    nomenclature, NCBI translation table 1).  Nothing here is derived from the code. *)
 From Coq Require Import List Arith NArith Lia Bool String Ascii.
 Import ListNotations.
-Open Scope N_scope.
+Local Open Scope N_scope.
 
 (* ASCII *)
 Definition ch (s : string) : N :=
